@@ -3,5 +3,4 @@ CONSTANTS
   Universe = "L"
   MaxLines = 3
 INVARIANT MachineOK
-INVARIANT GenInv
 CHECK_DEADLOCK FALSE
